@@ -36,13 +36,19 @@ Pool == <<
   [id |-> "aebr",      fs |-> <<F("accept-encoding", "br")>>],
   \* the upgrade token inside a list (what Firefox sends) and in a second Connection line, in lower case
   [id |-> "upgradeReqList",   fs |-> <<F("connection", "keep-alive, Upgrade"), F("upgrade", "websocket")>>],
-  [id |-> "upgradeReq2lines", fs |-> <<F("connection", "keep-alive"), F("connection", "upgrade"), F("upgrade", "websocket")>>]
+  [id |-> "upgradeReq2lines", fs |-> <<F("connection", "keep-alive"), F("connection", "upgrade"), F("upgrade", "websocket")>>],
+  \* fields net/http gives a meaning of its own when it reads or writes a request: Pragma without Cache-Control, fields
+  \* sent with an empty value (the client asks for no content coding / names no user agent)
+  [id |-> "pragma",    fs |-> <<F("pragma", "no-cache")>>],
+  [id |-> "aeEmpty",   fs |-> <<F("accept-encoding", "")>>],
+  [id |-> "uaEmpty",   fs |-> <<F("user-agent", "")>>]
 >>
 Items == 1..Len(Pool)
 \* items that cannot be combined (they use the same field in conflicting ways)
 UpgradeItems == {13, 23, 24}
 Conflict(S) == \/ (S \cap UpgradeItems # {} /\ S \cap {12, 6} # {}) \/ Cardinality(S \cap UpgradeItems) > 1
                \/ Cardinality(S \cap {14, 15}) > 1 \/ Cardinality(S \cap {16, 17}) > 1
+               \/ Cardinality(S \cap {22, 26}) > 1 \/ Cardinality(S \cap {21, 27}) > 1
 Selections == {S \in SUBSET Items : Cardinality(S) <= MaxItems /\ ~Conflict(S)}
 
 RECURSIVE Flatten(_, _)
@@ -70,7 +76,8 @@ Forwarded(h) ==
     noUA      |-> Values(h, "user-agent") = <<>> ]
 
 VARIABLE sel
-Init == sel \in (IF Sample = 0 THEN Selections ELSE RandomSubset(Sample, Selections))
+\* a random subset need not contain every item: every item is always run alone as well
+Init == sel \in (IF Sample = 0 THEN Selections ELSE RandomSubset(Sample, Selections) \cup {{i} : i \in Items})
 Next == FALSE /\ UNCHANGED sel
 \* sanity of the rules: nothing hop-by-hop survives, end-to-end order is the client's order
 NoHopByHopKept == \A i \in 1..Len(Forwarded(HeadOf(sel)).kept) : Forwarded(HeadOf(sel)).kept[i].n \notin HopByHop
